@@ -38,6 +38,9 @@ CHECKS['C15'] = dict(text='One step of Ar.Next from an arbitrary offset with arb
 CHECKS['C17'] = dict(text='Changelogs generated from an entry-list model (symbolic leaves) are executed symbolically through the real Parse/ParseOne (bufio from SSA, real version.Parse): the result must be exactly the model entries (source, version, distributions, options, verbatim body, maintainer, instant). For every truncation offset of each changelog the outcome must be an error or exactly the entries wholly inside the prefix with nothing but blank lines after them - never fewer without an error.',
              note='Trusted: go/ssa, interpreter, z3. time.Parse is an uninterpreted function of (layout, text) that is assumed to accept the three well-formed dates used and to reject text shorter than the fixed-width RFC1123Z layout; that it reads dates correctly is stdlib territory.',
              ref='DESIGN.md 2/C17')
+CHECKS['C09'] = dict(text='Probe struct types covering every supported kind and tag combination are marshalled and unmarshalled symbolically through the real encode.go/decode.go (reflect modelled over the interpreter heap, struct tags taken from go/types): on every path the round trip must reproduce the value field by field, optional zero fields must be absent and required ones present, a document lacking a required field must be an error, unknown fields of an embedded Paragraph must pass through in order while known ones reflect the struct, and no path may end in a panic.',
+             note='Trusted: go/ssa, interpreter, the reflect model (validated against the native build on the same calls), z3. Integers are symbolic in [-999,999] / [0,999] plus concrete 64-bit boundaries (decimal rendering of full 64-bit symbolic words does not finish).',
+             ref='DESIGN.md 2/C09')
 NA = {}
 props = [json.loads(l) for l in open(os.path.join(V, 'properties.jsonl'))]
 checks = []
